@@ -15,6 +15,7 @@ directive lines starting with `//@`:
   //@   before <anchor text>      /  //@ after <anchor text>   (+ following lines = inserted text)
   //@   after_stmt <anchor>       (after the `;` ending the statement that starts at anchor)
   //@   rewrite <old> ==> <new>
+  //@   replace_range <start anchor> ... <stop anchor> ==> <new>   (both anchors inclusive)
   //@   tail <name> <anchor>      block-tail expression E starting at anchor -> `let name = E; <text> name`
   //@   body_start
   //@ end
@@ -101,6 +102,10 @@ def build(template_path, out_path, canary=False, repo=None, mutate=None):
                         elif op == "tail":
                             nm, _, anc = arg.partition(" ")
                             cur = {"op": "tail", "name": nm, "anchor": anc.strip(), "text": ""}
+                        elif op == "replace_range":
+                            rng, _, new = arg.partition(" ==> ")
+                            a, _, b = rng.partition(" ... ")
+                            cur = {"op": "replace_range", "start": a, "stop": b, "new": new, "text": ""}
                         elif op == "rewrite":
                             if arg.endswith(" ==>"):
                                 arg += " "
